@@ -63,6 +63,126 @@ func refObj(ref string) map[string]any { return map[string]any{"$ref": ref} }
 // is recognisable
 var c02Salt string
 
+// sub returns the map at o[key], creating it when absent.
+func sub(o map[string]any, key string) map[string]any {
+	if m, ok := o[key].(map[string]any); ok {
+		return m
+	}
+	m := map[string]any{}
+	o[key] = m
+	return m
+}
+
+// c02SiteKind: the kind of object that lives at a site of an object of kind `kind` (spec/Gen_C02.tla Sites, plus
+// the sites that only inline objects use)
+func c02SiteKind(kind, site string) string {
+	switch site {
+	case "properties", "items", "allOf", "anyOf", "oneOf", "not", "additionalProperties", "schema", "content.schema", "post.requestBody.schema":
+		return "schemas"
+	case "examples", "content.examples":
+		return "examples"
+	case "headers", "content.encoding.headers":
+		return "headers"
+	case "links":
+		return "links"
+	case "post.responses":
+		return "responses"
+	case "post.requestBody":
+		return "requestBodies"
+	case "parameters":
+		return "parameters"
+	case "post.callbacks":
+		return "callbacks"
+	}
+	panic("harness: c02 site kind " + kind + ":" + site)
+}
+
+// c02Place puts v (a {"$ref": ..} object, or an inline object) at a site of the object o of the given kind.  Sites
+// compose: an object may carry several of them at once.
+func c02Place(o map[string]any, kind, site string, v any) {
+	mediaJSON := func(holder map[string]any) map[string]any {
+		mt := sub(sub(holder, "content"), "application/json")
+		return mt
+	}
+	postOp := func(pi map[string]any) map[string]any {
+		op := sub(pi, "post")
+		if op["responses"] == nil {
+			op["responses"] = map[string]any{"200": map[string]any{"description": "d"}}
+		}
+		return op
+	}
+	switch kind + ":" + site {
+	case "schemas:properties":
+		sub(o, "properties")["p"] = v
+	case "schemas:items":
+		o["type"] = "array"
+		o["items"] = v
+	case "schemas:allOf", "schemas:anyOf", "schemas:oneOf":
+		l, _ := o[site].([]any)
+		o[site] = append(l, v)
+	case "schemas:discriminator.mapping":
+		if o["oneOf"] == nil {
+			o["oneOf"] = []any{map[string]any{"type": "object"}}
+		}
+		o["discriminator"] = map[string]any{"propertyName": "t", "mapping": map[string]any{"k": v.(map[string]any)["$ref"]}}
+	case "schemas:not":
+		o["not"] = v
+	case "schemas:additionalProperties":
+		o["additionalProperties"] = v
+	case "parameters:schema", "headers:schema":
+		o["schema"] = v
+	case "parameters:content.schema", "headers:content.schema":
+		delete(o, "schema")
+		mediaJSON(o)["schema"] = v
+	case "parameters:content.examples", "headers:content.examples":
+		delete(o, "schema")
+		mt := mediaJSON(o)
+		if mt["schema"] == nil {
+			mt["schema"] = map[string]any{"type": "string"}
+		}
+		sub(mt, "examples")["e"] = v
+	case "parameters:examples", "headers:examples":
+		sub(o, "examples")["e"] = v
+	case "requestBodies:content.schema", "responses:content.schema":
+		mediaJSON(o)["schema"] = v
+	case "requestBodies:content.examples", "responses:content.examples":
+		mt := mediaJSON(o)
+		if mt["schema"] == nil {
+			mt["schema"] = map[string]any{"type": "object"}
+		}
+		sub(mt, "examples")["e"] = v
+	case "requestBodies:content.encoding.headers":
+		mt := sub(sub(o, "content"), "multipart/form-data")
+		mt["schema"] = map[string]any{"type": "object", "properties": map[string]any{"f": map[string]any{"type": "string"}}}
+		sub(sub(sub(mt, "encoding"), "f"), "headers")["H"] = v
+	case "responses:headers":
+		sub(o, "headers")["H"] = v
+	case "responses:links":
+		sub(o, "links")["L"] = v
+	case "pathItems:parameters":
+		l, _ := o["parameters"].([]any)
+		o["parameters"] = append(l, v)
+	case "pathItems:post.requestBody":
+		postOp(o)["requestBody"] = v
+	case "pathItems:post.responses":
+		postOp(o)["responses"] = map[string]any{"200": v}
+	case "pathItems:post.requestBody.schema":
+		sub(sub(sub(postOp(o), "requestBody"), "content"), "application/json")["schema"] = v
+	case "callbacks:post.requestBody":
+		postOp(sub(o, "{$request.body#/u}"))["requestBody"] = v
+	case "callbacks:post.responses":
+		postOp(sub(o, "{$request.body#/u}"))["responses"] = map[string]any{"200": v}
+	case "callbacks:post.callbacks":
+		sub(postOp(sub(o, "{$request.body#/u}")), "callbacks")["again"] = v
+	case "callbacks:parameters":
+		pi := sub(o, "{$request.body#/u}")
+		l, _ := pi["parameters"].([]any)
+		pi["parameters"] = append(l, v)
+	default:
+		panic("harness: c02 site " + kind + ":" + site)
+	}
+}
+
 func c02Concrete(kind string, c c02Content) map[string]any {
 	var o map[string]any
 	id := c.ID
@@ -94,73 +214,10 @@ func c02Concrete(kind string, c c02Content) map[string]any {
 	o["x-id"] = id + c02Salt
 	for _, in := range c.Inl {
 		// an inline concrete object (reachable only through a JSON pointer into this object)
-		if kind == "schemas" && in.Site == "properties" {
-			o["properties"] = map[string]any{"p": map[string]any{"type": "string", "x-id": in.ID + c02Salt}}
-		} else if kind == "pathItems" && in.Site == "post.requestBody.schema" {
-			o["post"] = map[string]any{"responses": map[string]any{"200": map[string]any{"description": "d"}},
-				"requestBody": map[string]any{"content": map[string]any{"application/json": map[string]any{
-					"schema": map[string]any{"type": "object", "x-id": in.ID + c02Salt}}}}}
-		} else {
-			panic("harness: c02 inline site " + kind + ":" + in.Site)
-		}
+		c02Place(o, kind, in.Site, c02Concrete(c02SiteKind(kind, in.Site), c02Content{ID: in.ID}))
 	}
 	for _, ch := range c.Ch {
-		r := refObj(ch.Ref)
-		switch kind + ":" + ch.Site {
-		case "schemas:properties":
-			o["properties"] = map[string]any{"p": r}
-		case "schemas:items":
-			o["type"] = "array"
-			o["items"] = r
-		case "schemas:allOf", "schemas:anyOf", "schemas:oneOf":
-			o[ch.Site] = []any{r}
-		case "schemas:discriminator.mapping":
-			o["oneOf"] = []any{map[string]any{"type": "object"}}
-			o["discriminator"] = map[string]any{"propertyName": "t", "mapping": map[string]any{"k": ch.Ref}}
-		case "schemas:not":
-			o["not"] = r
-		case "schemas:additionalProperties":
-			o["additionalProperties"] = r
-		case "parameters:schema", "headers:schema":
-			o["schema"] = r
-		case "parameters:content.schema":
-			delete(o, "schema")
-			o["content"] = map[string]any{"application/json": map[string]any{"schema": r}}
-		case "parameters:examples", "headers:examples":
-			o["examples"] = map[string]any{"e": r}
-		case "requestBodies:content.schema":
-			o["content"] = map[string]any{"application/json": map[string]any{"schema": r}}
-		case "requestBodies:content.examples":
-			o["content"] = map[string]any{"application/json": map[string]any{"schema": map[string]any{"type": "object"}, "examples": map[string]any{"e": r}}}
-		case "requestBodies:content.encoding.headers":
-			o["content"] = map[string]any{"multipart/form-data": map[string]any{
-				"schema":   map[string]any{"type": "object", "properties": map[string]any{"f": map[string]any{"type": "string"}}},
-				"encoding": map[string]any{"f": map[string]any{"headers": map[string]any{"H": r}}}}}
-		case "responses:headers":
-			o["headers"] = map[string]any{"H": r}
-		case "responses:content.schema":
-			o["content"] = map[string]any{"application/json": map[string]any{"schema": r}}
-		case "responses:content.examples":
-			o["content"] = map[string]any{"application/json": map[string]any{"schema": map[string]any{"type": "object"}, "examples": map[string]any{"e": r}}}
-		case "responses:links":
-			o["links"] = map[string]any{"L": r}
-		case "pathItems:parameters":
-			o["parameters"] = []any{r}
-		case "pathItems:post.requestBody":
-			o["post"] = map[string]any{"requestBody": r, "responses": map[string]any{"200": map[string]any{"description": "d"}}}
-		case "pathItems:post.responses":
-			o["post"] = map[string]any{"responses": map[string]any{"200": r}}
-		case "callbacks:post.requestBody":
-			o["{$request.body#/u}"].(map[string]any)["post"].(map[string]any)["requestBody"] = r
-		case "callbacks:post.responses":
-			o["{$request.body#/u}"].(map[string]any)["post"].(map[string]any)["responses"] = map[string]any{"200": r}
-		case "callbacks:post.callbacks":
-			o["{$request.body#/u}"].(map[string]any)["post"].(map[string]any)["callbacks"] = map[string]any{"again": r}
-		case "callbacks:parameters":
-			o["{$request.body#/u}"].(map[string]any)["parameters"] = []any{r}
-		default:
-			panic("harness: c02 site " + kind + ":" + ch.Site)
-		}
+		c02Place(o, kind, ch.Site, refObj(ch.Ref))
 	}
 	return o
 }
@@ -209,6 +266,7 @@ func c02WriteUniverse(dir string, tc *c02Case) (string, []byte) {
 		whole map[string]any
 		comps map[string]map[string]any
 		paths map[string]any
+		defs  map[string]any // definitions outside the typed structure: "x-defs" of the document / of the whole-file element
 	}
 	files := map[string]*fileDoc{}
 	get := func(f string) *fileDoc {
@@ -220,6 +278,13 @@ func c02WriteUniverse(dir string, tc *c02Case) (string, []byte) {
 	get("r/openapi.json")
 	for _, s := range tc.Files {
 		fd := get(s.File)
+		if dn, ok := strings.CutPrefix(s.Name, "#def:"); ok {
+			if fd.defs == nil {
+				fd.defs = map[string]any{}
+			}
+			fd.defs[dn] = c02Content2JSON(s.Kind, s.C)
+			continue
+		}
 		if s.Name == "" {
 			fd.whole = c02Content2JSON(s.Kind, s.C)
 			continue
@@ -290,6 +355,9 @@ func c02WriteUniverse(dir string, tc *c02Case) (string, []byte) {
 				d["components"] = comps
 			}
 			doc = d
+		}
+		if fd.defs != nil {
+			doc.(map[string]any)["x-defs"] = fd.defs
 		}
 		b, err := json.Marshal(doc)
 		if err != nil {
@@ -585,6 +653,39 @@ func c02Load(tc *c02Case, allowExternal bool) *c02Loaded {
 		}
 		res.reads = []any{}
 		res.doc, res.err = loader.LoadFromFile(rootPath)
+	case "resolvein", "file_abs_toggled", "resolvein_toggled", "file_abs_retry", "resolvein_retry":
+		// histories of one Loader whose switch is changed between two uses (spec/Gen_C02.tla HistoryEntries)
+		if strings.HasSuffix(tc.Entry, "_toggled") {
+			lone, err := os.MkdirTemp("", "verif-c02-lone-")
+			if err != nil {
+				panic(err)
+			}
+			defer os.RemoveAll(lone)
+			other := filepath.Join(lone, "other.json")
+			os.WriteFile(other, []byte(`{"openapi":"3.0.3","info":{"title":"other","version":"1"},"paths":{}}`), 0o644)
+			loader.IsExternalRefsAllowed = !allowExternal
+			if _, err := loader.LoadFromFile(other); err != nil {
+				panic("harness: reference-free document did not load: " + err.Error())
+			}
+		}
+		if strings.HasSuffix(tc.Entry, "_retry") {
+			loader.IsExternalRefsAllowed = !allowExternal
+			guard(func() { loader.LoadFromFile(rootPath) })
+		}
+		loader.IsExternalRefsAllowed = allowExternal
+		res.reads = []any{}
+		if strings.HasPrefix(tc.Entry, "resolvein") {
+			doc := &openapi3.T{}
+			if err := json.Unmarshal(rootBytes, doc); err != nil {
+				res.err = err
+			} else if err := loader.ResolveRefsIn(doc, &url.URL{Path: filepath.ToSlash(rootPath)}); err != nil {
+				res.err = err
+			} else {
+				res.doc = doc
+			}
+		} else {
+			res.doc, res.err = loader.LoadFromFile(rootPath)
+		}
 	case "file_rel", "file_rel_default":
 		wd, _ := os.Getwd()
 		os.Chdir(dir)
@@ -688,6 +789,11 @@ func collectRefStrings(v any, out *[]any) {
 					}
 					*out = append(*out, map[string]any{"text": s, "file": file, "frag": segs})
 				}
+				continue
+			}
+			if strings.HasPrefix(k, "x-") {
+				// the value of a specification extension is opaque data, not part of the OpenAPI structure: a "$ref" key
+				// inside it is no Reference Object
 				continue
 			}
 			collectRefStrings(e, out)
